@@ -19,20 +19,38 @@ def check_dispatch_shape(analysis: Analysis) -> None:
     params = [a.arg for a in info.node.args.args]
     if params[:3] != ["self", "filename", "action"]:
         raise AnalysisError(f"{PFA}: unexpected signature {params}")
+    fname_p, action_p = params[1], params[2]
     pattern_ok = False
     call_ok = False
-    fname_var = None
+    fn_var = None
+    derived = {}  # local name -> expression it was assigned from
+    for n in ast.walk(info.node):
+        if isinstance(n, ast.Assign) and len(n.targets) == 1 and isinstance(n.targets[0], ast.Name):
+            derived[n.targets[0].id] = n.value
+
+    def from_extension(expr, depth=0) -> bool:
+        """Does the expression derive from os.path.splitext(<filename>)[1] (possibly sliced / via locals)?"""
+        txt = unparse(expr)
+        if "splitext" in txt and fname_p in txt:
+            return True
+        if depth > 4:
+            return False
+        for nm in [x.id for x in ast.walk(expr) if isinstance(x, ast.Name)]:
+            if nm in derived and from_extension(derived[nm], depth + 1):
+                return True
+        return False
+
     for n in ast.walk(info.node):
         if isinstance(n, ast.Assign) and isinstance(n.value, ast.Call) and unparse(n.value.func) == "getattr" and len(n.value.args) >= 2 and isinstance(n.value.args[1], ast.JoinedStr):
             js = n.value.args[1]
             lits = [p.value for p in js.values if isinstance(p, ast.Constant)]
-            vals = [unparse(p.value) for p in js.values if isinstance(p, ast.FormattedValue)]
-            if lits == ["_", "_"] and vals and vals[0] == "action" and vals[1].startswith("ext"):
+            vals = [p.value for p in js.values if isinstance(p, ast.FormattedValue)]
+            if lits == ["_", "_"] and len(vals) == 2 and unparse(vals[0]) == action_p and from_extension(vals[1]) and unparse(n.value.args[0]) == "self":
                 pattern_ok = True
-                fname_var = n.targets[0].id if isinstance(n.targets[0], ast.Name) else None
-    if fname_var:
+                fn_var = n.targets[0].id if isinstance(n.targets[0], ast.Name) else None
+    if fn_var:
         for n in ast.walk(info.node):
-            if isinstance(n, ast.Call) and isinstance(n.func, ast.Name) and n.func.id == fname_var and len(n.args) == 1 and unparse(n.args[0]) == "filename":
+            if isinstance(n, ast.Call) and isinstance(n.func, ast.Name) and n.func.id == fn_var and len(n.args) == 1 and unparse(n.args[0]) == fname_p:
                 call_ok = True
     if not (pattern_ok and call_ok):
         raise AnalysisError(f"{PFA}: dispatch `getattr(self, f'_{{action}}_{{ext}}')(filename)` not recognised")
